@@ -212,6 +212,10 @@ func ruleF2I(c *Ctx) {
 					c.ok(key+":post-check", cv.Pos(), "the converted value is compared with a lower and an upper bound, both leaving the function, before anything else uses it: whatever integer an out-of-range %s converts to, it is rejected or lies within the accepted range", k)
 					return
 				}
+				if short == "interp" && onlyToReflectValueOf(cv) {
+					c.ok(key, cv.Pos(), "tabled by role (the converted value only becomes the argument of reflect.ValueOf, i.e. a native function's parameter): %s", f2iTable["(*interp.interp).toNative"])
+					return
+				}
 				why, ok := f2iTable[fnKey(fn)+"->"+sink]
 				if !ok {
 					why, ok = f2iTable[fnKey(fn)]
@@ -232,6 +236,55 @@ func ruleF2I(c *Ctx) {
 	}
 	sort.Strings(ks)
 	c.stat("tabled-sites", len(ks))
+}
+
+// onlyToReflectValueOf: every use of the converted value (through integer conversions, boxing and phis) ends as
+// the argument of reflect.ValueOf: the conversion of an AWK number to a native function's parameter kind,
+// wherever that code sits.
+func onlyToReflectValueOf(cv *ssa.Convert) bool {
+	seen := map[ssa.Value]bool{}
+	ends := 0
+	var walk func(v ssa.Value) bool
+	walk = func(v ssa.Value) bool {
+		if seen[v] {
+			return true
+		}
+		seen[v] = true
+		refs := v.Referrers()
+		if refs == nil {
+			return false
+		}
+		for _, r := range *refs {
+			switch x := r.(type) {
+			case *ssa.DebugRef:
+			case *ssa.Convert:
+				if b, ok := x.Type().Underlying().(*types.Basic); !ok || b.Info()&types.IsInteger == 0 {
+					return false
+				}
+				if !walk(x) {
+					return false
+				}
+			case *ssa.MakeInterface:
+				if !walk(x) {
+					return false
+				}
+			case *ssa.Phi:
+				if !walk(x) {
+					return false
+				}
+			case *ssa.Call:
+				fo := calleeObj(x)
+				if fo == nil || funcFullName(fo) != "reflect.ValueOf" {
+					return false
+				}
+				ends++
+			default:
+				return false
+			}
+		}
+		return true
+	}
+	return walk(cv) && ends > 0
 }
 
 // onlyTested: every use of the converted value is a comparison, or its appearance as an argument of an
